@@ -47,16 +47,24 @@ def strat_fft(tier):
         "spacing": st.tuples(gen.logu(1e-3, 1e3), gen.logu(1e-3, 1e3)).map(list),
         "seed": st.integers(0, 2 ** 31 - 1), "complex": st.booleans(), "shift": st.booleans(),
         "extra": st.sampled_from([None, None, ["illumination", ["r", "g"]], ["time", [0.0, 1.0, 2.0]]]),
+        # where the image begins, in pixel spacings (a crop of a larger frame, a stage offset)
+        "origin_px": st.one_of(st.just([0.0, 0.0]), st.tuples(st.floats(-50, 50), st.floats(-50, 50)).map(list),
+                               st.tuples(st.integers(-30, 30), st.integers(-30, 30)).map(lambda t: [float(t[0]), float(t[1])])),
     })
 
 
 def run_fft(case):
     from holopy.core.process import fft, ifft
     a = make_image(case["shape"], case["spacing"], case["seed"], case["complex"], extra=case["extra"])
+    opx = case.get("origin_px", [0.0, 0.0])
+    if opx[0] or opx[1]:
+        a = a.assign_coords(x=a.x.values + opx[0] * case["spacing"][0], y=a.y.values + opx[1] * case["spacing"][1])
     labels = ["odd" if (case["shape"][0] % 2 or case["shape"][1] % 2) else "even",
               "square" if case["shape"][0] == case["shape"][1] else "nonsquare", "shift" if case["shift"] else "noshift"]
     if case["extra"]:
         labels.append("extra_dim")
+    if opx[0] or opx[1]:
+        labels.append("shifted_origin")
     F = fft(a, shift=case["shift"])
     if "m" not in F.dims or "n" not in F.dims or F.sizes["m"] != case["shape"][0] or F.sizes["n"] != case["shape"][1]:
         return Outcome(failure("fft_dims", "fft result dims %r sizes %r" % (F.dims, dict(F.sizes))), True, labels)
@@ -82,7 +90,7 @@ def run_fft(case):
                                odd=labels[0] == "odd", shift=case["shift"]), True, labels)
     for cn in ("x", "y"):
         ca, cb = a.coords[cn].values, b.coords[cn].values
-        if ca.shape != cb.shape or np.abs(ca - cb).max() > 1e-12 * max(abs(ca).max(), 1e-300):
+        if ca.shape != cb.shape or np.abs(ca - cb).max() > 1e-12 * max(abs(ca).max(), abs(ca[-1] - ca[0]), 1e-300):
             return Outcome(failure("inverse_pair_coordinates", "coordinate %s not recovered: %r vs %r" % (cn, cb[:3].tolist(), ca[:3].tolist())), True, labels)
     for cn in a.coords:
         if cn not in ("x", "y") and not np.array_equal(np.asarray(a.coords[cn].values), np.asarray(b.coords[cn].values)):
